@@ -78,6 +78,21 @@ func BigInt(v *big.Int) *Term { return &Term{Op: "int", Val: new(big.Int).Set(v)
 // tErr: the value of a contract clause that could not be evaluated (never assumed, never a proof goal)
 var tErr = &Term{Op: "false", Sort: SBool, Name: "contract-error"}
 
+// Strcat builds the concatenation of two abstract strings in a canonical, right-nested form: concatenation is
+// associative and "" (id 0) is its unit, so (a+b)+c and a+(b+c) are the same term whichever way the code groups them.
+func Strcat(a, b *Term) *Term {
+	if a.IsInt() && a.Val.Sign() == 0 {
+		return b
+	}
+	if b.IsInt() && b.Val.Sign() == 0 {
+		return a
+	}
+	if a.Op == "strcat" && len(a.Args) == 2 {
+		return Strcat(a.Args[0], Strcat(a.Args[1], b))
+	}
+	return App("strcat", SInt, a, b)
+}
+
 func Sym(name, sort string) *Term {
 	return &Term{Op: "sym", Name: name, Sort: sort}
 }
